@@ -170,8 +170,8 @@ round 10, four of round 11, one of round 12, two of round 13) and led to strengt
   deadlocked execution kept a global lock; the next execution stalled and the run ended as a
   machinery failure instead of a verdict) - fixed by a pool of reference matchers.
 
-After round 9 every stored change was re-applied in turn and its check re-run
-(`tools/recheck_all.sh`, in the shadow copy): 102 of 102 are reported.
+After round 9 and again after round 13 every stored change was re-applied in turn and its check
+re-run (`tools/recheck_all.sh`, in the shadow copy): 102 of 102, then 142 of 142 are reported.
 
 A side remark of the C10 agent (an overflow with `prefer_prefix` for matches starting beyond
 column 21845) was a genuine defect of the unchanged tree that the large-shape families had missed
